@@ -20,7 +20,7 @@ def main():
     pid = a.prop.upper()
     if a.replay:
         env = dict(os.environ)
-        env["PYTHONPATH"] = "/repo:" + report.VERIF
+        env["PYTHONPATH"] = os.environ.get("VERIF_REPO", "/repo") + ":" + report.VERIF
         return subprocess.call([report.PRISTINE_PY, "-m", "vf.replay", "--show", a.replay], env=env, cwd=report.VERIF)
     seed = int(os.environ.get("VERIF_SEED", "0"))
     random.seed(seed)
